@@ -154,3 +154,52 @@ def check(run):
                    ("raw pointer member is assigned from %s in %s: it may alias storage shared with other instances" % (bad[0][1], short(bad[0][0]["qn"])) if bad else
                     "no assignment of the pointer member found"))
     run.floor("R20.3", 3, "raw pointer members")
+
+    # R20.4 a descriptor the object has released is not kept: the process-wide descriptor table hands the same number to
+    # whoever opens a file next (possibly another thread's exporter), so a later write()/close() on the stale number
+    # lands in an unrelated output.  This is the assumption behind the allow-list entries for write/close/fstat.
+    n4 = 0
+    for f in sorted(facts.functions.values(), key=lambda f: (f.get("file", ""), f.get("line", 0))):
+        if not lib_file(facts, f) or f.get("body") is None or not f.get("cls"):
+            continue
+        body = f["body"]
+        order = {id(x): i for i, x in enumerate(ir.walk(body))}
+        # which member does this class hand to ::close()?
+        closers = {}          # method qn -> member name released by it
+        for g in facts.functions.values():
+            if g.get("cls") != f["cls"] or g.get("body") is None:
+                continue
+            for c in ir.calls_in(g["body"]):
+                if c.get("k") == "Call" and callee_name(c) == "close" and (c.get("callee") or {}).get("externc") and c.get("args"):
+                    p = path(c["args"][0])
+                    if p and p[0] == "this" and len(p) == 2:
+                        closers[g["qn"]] = p[1]
+        if not closers or f.get("dtor") or f["qn"] in closers:
+            continue
+        for c in ir.calls_in(body):
+            mem = None
+            if c.get("k") == "MCall" and callee_qn(c) in closers and unwrap(c.get("recv") or {}).get("k") == "This":
+                mem = closers[callee_qn(c)]
+            if mem is None:
+                continue
+            n4 += 1
+            # copies of the descriptor taken before the release
+            stale = set()
+            for d in ir.walk(body):
+                if d.get("k") == "Decl" and order[id(d)] < order[id(c)]:
+                    for v in d.get("vars", []):
+                        if v.get("init") is not None and path(v["init"]) == ("this", mem) and "n" in v:
+                            stale.add("l:%s#%s" % (v["n"], v["id"]))
+            after = []
+            for x in ir.walk(body):
+                if x.get("k") == "Bin" and x.get("op") == "=" and path(x.get("lhs")) == ("this", mem) and order[id(x)] > order[id(c)]:
+                    after.append(x)
+            bad = [x for x in after if path(x.get("rhs")) and path_str(path(x["rhs"])) in stale]
+            ok = bool(after) and not bad
+            run.ob("R20.4", "%s:%s-not-kept-after-close" % (short(f["qn"]), mem), ok, f, (bad[0] if bad else c).get("l", 0),
+                   "after releasing the descriptor the member takes a new value" if ok else
+                   ("`%s` is set back to the descriptor that was just closed (copied before the close): the object keeps a number the "
+                    "process may hand to another thread's output; its later write()/close() hit that output" % mem if bad else
+                    "`%s` still holds the closed descriptor when %s returns" % (mem, short(f["qn"]))))
+    run.floor("R20.4", 1, "release sites of a descriptor member")
+
